@@ -105,7 +105,7 @@ def make_cases(rng, n_cases, nmax):
             first, second = [p[0] for p in rng.sample(cand, 2)]
         cases.append({"unit": unit, "gen": gen, "n": n, "first": first, "second": second,
                       "by": rng.choice(["name", "name", "signal", "signal_name", "name_signal"]),
-                      "pre_elab": "design" in unit and rng.random() < 0.3,
+                      "pre_elab": "design" in unit and rng.choice([False, False, False, True, "failed"]),
                       # the unit may itself be what a generator returned
                       "unit_generated": "design" in unit and rng.random() < 0.3})
     return cases
@@ -153,7 +153,27 @@ def impl_builtin(case):
         want0 = None
         if isinstance(u, h.Module):
             want0 = sorted([("sig", n) for n in u.ports] + [("bundle", n) for n, b in u.bundles.items() if b.port])
-        if case.get("pre_elab"):
+        if case.get("pre_elab") == "failed":
+            # the unit was part of a design whose elaboration failed in a late pass, for a reason outside the unit (a sibling's instance
+            # array of a width that does not fit): the early passes have rewritten it, the last one never reached it (seed C19-r8-2)
+            two = h.Module(name="HistTwoBit"); two.d = h.Input(width=2)
+            bad = h.Module(name="HistBadSibling"); bad.w = h.Signal(width=3)
+            bad.arr = 2 * two(d=bad.w)
+            par = h.Module(name="HistFailedParent")
+            par.b = bad()
+            conns = {}
+            for n, sg in u.ports.items():
+                conns[n] = par.add(h.Signal(width=sg.width), name=f"u_{n}")
+            for n, b in u.bundles.items():
+                if b.port:
+                    conns[n] = par.add(b.of(), name=f"ub_{n}")
+            par.u = u(**conns)
+            try:
+                h.elaborate(par)
+                return {"build_error": "the history design was expected to fail"}
+            except RuntimeError:
+                pass
+        elif case.get("pre_elab"):
             h.elaborate(u)
     except Exception as ex:  # noqa
         return {"build_error": common.errstr(ex)}
@@ -380,6 +400,8 @@ def corpus():
     for pre in (False, True):
         out.append({"unit": {"design": copy.deepcopy(u)}, "gen": "Wrapper", "n": 1, "first": "a", "second": "b", "by": "name", "pre_elab": pre})
         out.append({"unit": {"design": copy.deepcopy(u)}, "gen": "Series", "n": 3, "first": "a", "second": "b", "by": "name", "pre_elab": pre})
+    for gen, n in (("Wrapper", 1), ("Series", 1), ("Series", 3)):
+        out.append({"unit": {"design": copy.deepcopy(u)}, "gen": gen, "n": n, "first": "a", "second": "b", "by": "name", "pre_elab": "failed"})
     out.append({"unit": {"leaf": copy.deepcopy(E_CLASH)}, "gen": "Series", "n": 3, "first": "i", "second": "o", "by": "name", "pre_elab": False})
     out.append({"unit": {"leaf": copy.deepcopy(E_CLASH)}, "gen": "Wrapper", "n": 1, "first": "i", "second": "o", "by": "name", "pre_elab": False})
     # the series pair given half by Signal, half by name; a unit that a generator returned, wrapped once
